@@ -653,7 +653,7 @@ var siblingExceptions = map[string]string{
 	"decoder.Any.completeConditionalExprAtPos|ConditionalExpr.FalseResult": "reviewed divergence: see TrueResult",
 	"decoder.Any.hoverConditionalExprAtPos|ConditionalExpr.TrueResult":     "reviewed divergence: see completeConditionalExprAtPos",
 	"decoder.Any.hoverConditionalExprAtPos|ConditionalExpr.FalseResult":    "reviewed divergence: see completeConditionalExprAtPos",
-	"decoder.Any.refOriginsForForExpr|ForExpr.CollExpr": "origins of a for-expression's collection are collected under 'any collection type' (list/set/tuple/map/object of anything) because the collection's type is unrelated to the result constraint; the other walkers pass the result constraint on. Reviewed: a superset constraint for origins cannot lose a reference that the others see",
+	"decoder.Any.refOriginsForForExpr|ForExpr.CollExpr":                    "origins of a for-expression's collection are collected under 'any collection type' (list/set/tuple/map/object of anything) because the collection's type is unrelated to the result constraint; the other walkers pass the result constraint on. Reviewed: a superset constraint for origins cannot lose a reference that the others see",
 }
 
 // runZeroLenCopy — E15.copy-into-empty: copy(dst, src) copies min(len(dst), len(src)) elements;
